@@ -52,7 +52,10 @@ contract(
     "odfdo.utils.color:hex2rgb",
     sig=dict(color=Str.of(pool=["", "#", "#000000", "#FFFFFF", "#ffffff", "#12aBcF", "#GGGGGG", "#12345", "#1234567",
                                 "1234567", "#12 456", "#+1+2+3", "#-1-2-3", "#１２３４５６", "#0x0x0x", "#1_1_1_",
-                                "#٠١٢٣٤٥", "#ｆｆｆｆｆｆ"])),
+                                "#٠١٢٣٤٥", "#ｆｆｆｆｆｆ",
+                                # forms Python's int(s, 16) accepts on a whole string but not per channel
+                                "#0x1234", "#0XFFFF", "#0xabcd", "#00x123", "#0b1010", "#0o1234", "#1_2345",
+                                "#12345z", "#x12345", "#00000g"])),
     raises={ValueError: lambda a: S.Not(in_color_form(a.color))},
     ensures=[Clause("channels", P18 | {"C06"}, lambda a, r, p: S.And(
         r[0] == pair_val(a.color, 1), r[1] == pair_val(a.color, 3), r[2] == pair_val(a.color, 5),
